@@ -140,6 +140,33 @@ def max_length_records(tif: bool, rec: bool, chk: bool, d: int, n1: int) -> bool
         return True
 
 
+def many_physical_records(tif: bool, extra: int) -> bool:
+    """
+    pre: 0 <= extra <= 2
+    post: _
+    """
+    # more than 65536 physical records in one file (record number trailer, one payload byte per record): the 16-bit record number wraps
+    tif, extra = mark.pickb(tif), mark.pick(extra, 0, 2)
+    with mark.untraced():
+        prt = PhysRec.PhysRecTail(hasRecNum=True, fileNum=None, hasCheckSum=False)
+        lrs = [bytes([0x80, 0]) + bytes([(i * 7) % 251 for i in range(65534 + extra)]), _lr(1, 3, 0x33)]
+        f = SymWFile()
+        w = File.FileWrite(f, 'w', False, tif, 4 + prt.prtLen + 1, prt)
+        pos = [w.write(lr) for lr in lrs]
+        w.close()
+        data = f.getvalue()
+        mark.hit()
+        try:
+            ref = REF.decode(data, tif)
+        except REF.LayoutError:
+            return False
+        if ref != [(pos[0], lrs[0]), (pos[1], lrs[1])]:
+            return False
+        r = File.FileRead(SymFile(data), 'r', False)
+        r.seekLr(pos[1])
+        return r.readLrBytes() == lrs[1] and r.tellLr() == pos[1]
+
+
 def strip_tif_is_plain(cap: int, rec: bool, chk: bool, n0: int, n1: int) -> bool:
     """
     pre: 1 <= cap <= 4 and 1 <= n0 <= 7 and 1 <= n1 <= 5
